@@ -8,7 +8,25 @@ func (e *Engine) lemmaObligation(lm *Lemma) (*FT, *Obligation) {
 	ft := e.newFT(nil, nil)
 	ft.entrySnapshot = State{}
 	env := &CEnv{ft: ft, vars: map[string]*CV{}, cur: State{}, old: State{}}
-	g, err := env.EvalBool(lm.Expr)
+	expr := lm.Expr
+	// skolemise the outer universal quantifier so that spec functions applied
+	// to the lemma's variables can be unfolded
+	for {
+		q, ok := expr.(*EQuant)
+		if !ok || !q.Forall {
+			break
+		}
+		for _, v := range q.Vars {
+			so := v[1]
+			if so == "" {
+				so = "Int"
+			}
+			c := ft.fresh("sk."+v[0], so)
+			env.vars[v[0]] = &CV{T: c, Sort: so}
+		}
+		expr = q.Body
+	}
+	g, err := env.EvalBool(expr)
 	if err != nil {
 		return ft, &Obligation{Name: "shape:lemma " + lm.Name, Kind: "shape", Tags: lm.Tags, Guard: tTrue, Goal: tFalse,
 			Src: fmt.Sprintf("lemma cannot be resolved: %v", err), Fn: "lemma", Pos: fmt.Sprintf("%s:%d", lm.File, lm.Line)}
